@@ -633,11 +633,11 @@ def run(chk):
 META = {
     "category": "other",
     "engine": "PAIR + OPS",
-    "technique": "must-follow pairing on the statement order of sweep loops, co-update set comparison, producer/consumer symbol-vocabulary agreement, def-use dependence of loop domains (ast)",
+    "technique": "abstract interpretation: _update_mps with on-the-fly swapping on abstract tensors (views share storage), try_swap_site / single_sweep / tdvp_ps2 with recorders and versions, qc_model and int_to_h on symbolic integrals, exhaustive Jordan-Wigner sign identity over all two-symbol words in exact 2x2 algebra",
     "text": "Clause-only: decides that state-side and operator-side swaps are paired and parameterised alike, that the operator swap updates all "
             "dependent fields, that the JW remapping understands the ab-initio model's symbols, and that both integral tensors feed both "
             "term layouts. The Jordan-Wigner sign algebra and spectrum invariance are not decided."
             " The Jordan-Wigner sign exponent is evaluated over its whole finite input space; simplify_op's normal ordering is compared with exact 2x2 matrix products for every word up to length 5; the state side of a swap applies sign, labels, decomposition results and a fresh model together, the sign before the decomposition.",
     "note": "Callers of _update_mps are a closed table; a new caller stops the analysis until classified.",
-    "design_ref": "DESIGN.md 3.7, 4 (C17)",
+    "design_ref": "DESIGN.md 3.7, 4 (C17); as built: 9.1, 9.3, 9.8",
 }
